@@ -6,6 +6,7 @@ import (
 	"encoding/json"
 	"fmt"
 	"math/rand"
+	"reflect"
 	"sort"
 	"strings"
 
@@ -723,6 +724,11 @@ func randModel(r *rand.Rand, emptyVar bool) (modelSpec, map[string]string, map[s
 }
 
 func (m modelSpec) leakArgs(env, cores map[string]string, layout string) leakArgs {
+	return m.leakArgsTree(m.main(), env, cores, layout)
+}
+
+// leakArgsTree: the same with the main model given (round 7: the shared-value stream edits it first).
+func (m modelSpec) leakArgsTree(d tree, env, cores map[string]string, layout string) leakArgs {
 	a := leakArgs{Env: env, Cores: cores, PName: m.pname, Files: map[string]json.RawMessage{}}
 	for _, s := range m.secrets {
 		a.Secrets = append(a.Secrets, leakRes{Name: s.name, Kind: s.kind, Var: s.varn})
@@ -730,7 +736,6 @@ func (m modelSpec) leakArgs(env, cores map[string]string, layout string) leakArg
 	for _, c := range m.configs {
 		a.Configs = append(a.Configs, leakRes{Name: c.name, Kind: c.kind, Var: c.varn})
 	}
-	d := m.main()
 	switch layout {
 	case "override":
 		// resources declared in the first file, services (and an extension on one resource) in the second
@@ -1083,8 +1088,15 @@ func genLeak(ctx *core.Ctx) {
 			continue
 		}
 		a := m.leakArgs(env, cores, layout)
+		if layout != "include" && ctx.Rng.Intn(4) == 0 {
+			// round 7: the same model handed over already parsed, with Go values shared between positions
+			a = m.randShared(ctx.Rng, env, cores, layout, ctx.Count)
+		}
 		if ctx.Rng.Intn(3) == 0 {
 			a.Opts = randOpts(ctx.Rng)
+			if a.Pre != nil && a.Opts.SkipInterpolation {
+				ctx.Count("leak-random-shared-nointerp") // the recorded in-place finding, see genLeakShared
+			}
 			countOpts(ctx, "leak-random-opt", a.Opts)
 		}
 		ctx.Add("c20.leak", a)
@@ -1398,5 +1410,292 @@ func runC20(ctx *core.Ctx) {
 	genApply(ctx)
 	genFlow(ctx)
 	genLeak(ctx)
+	genLeakShared(ctx)
 	ctx.Res.Exhaustive = true
+}
+
+// ---------------------------------------------------------------- round 7: models handed over already parsed, with shared values
+
+// A program that builds its model in memory (types.ConfigFile.Config, public API) may place one Go map / slice value at
+// several positions: the definition of a secret also under an `x-` key, the labels of one resource on another, …
+// YAML text never does (yaml.v3 decodes every alias afresh).  Every in-place pass of the loader after interpolation
+// (resolve*Environment: the carrier key; setNameFromKey: `name`; the decoder hook: `Content`) then writes through every
+// position, unless something between the caller's value and those passes made the positions distinct values.
+// With SkipInterpolation the loader works on the caller's value itself (no stage copies it): a recorded finding with
+// its own two keys (inPlaceKeys in c20_oracle.go); with interpolation on nothing of the kind may happen.
+
+const plainRef = "${C20_PLAIN_UNSET:-plain}" // a reference that interpolates to a text nobody searches for
+
+type shareTarget struct {
+	label string
+	path  []string
+	wrap  bool
+	res   string // "secret" / "config": the target is a resource definition of its own
+}
+
+var shareTargets = []shareTarget{
+	{"top-ext", []string{"x-shared"}, false, ""},
+	{"top-ext-nested", []string{"x-deep", "inner"}, false, ""},
+	{"top-ext-list", []string{"x-list"}, true, ""},
+	{"svc-ext", []string{"services", "other", "x-shared"}, false, ""},
+	{"res-ext", []string{"secrets", "s_file", "x-shared"}, false, ""},
+	{"cfg-ext", []string{"configs", "c_inline", "x-shared"}, false, ""},
+	{"secret", []string{"secrets", "s_alias"}, false, "secret"},
+	{"config", []string{"configs", "c_alias"}, false, "config"},
+}
+
+// addDollar writes a `$` reference into the value at path (mapping: a new key; label list: a new entry).
+func addDollar(d tree, path []string) bool {
+	parent, ok := lookupPath(d, path[:len(path)-1]...)
+	if !ok {
+		return false
+	}
+	pm, ok := parent.(tree)
+	if !ok {
+		return false
+	}
+	last := path[len(path)-1]
+	switch v := pm[last].(type) {
+	case tree:
+		if len(path) == 2 || last == "x-nested" {
+			v["x-dollar"] = plainRef
+		} else {
+			v["d"] = plainRef
+		}
+		return true
+	case []any:
+		if last != "labels" {
+			return false
+		}
+		pm[last] = append(v, "d="+plainRef)
+		return true
+	}
+	return false
+}
+
+// resOf: the generated resource a path of length 2 names.
+func (m modelSpec) resOf(path []string) (resSpec, bool) {
+	if len(path) != 2 {
+		return resSpec{}, false
+	}
+	l := m.secrets
+	if path[0] == "configs" {
+		l = m.configs
+	} else if path[0] != "secrets" {
+		return resSpec{}, false
+	}
+	for _, s := range l {
+		if s.name == path[1] {
+			return s, true
+		}
+	}
+	return resSpec{}, false
+}
+
+// sharedArgs: model m with the value at src placed at the targets too; dollar: 0 no `$` near it, 1 inside the shared
+// value, 2 in a sibling (the enclosing resource for a sub-value, another resource of the section for a definition).
+func (m modelSpec) sharedArgs(env, cores map[string]string, layout string, src []string, targets []shareTarget, dollar int) (leakArgs, bool) {
+	d := m.main()
+	if v, ok := lookupPath(d, src...); !ok {
+		return leakArgs{}, false
+	} else if _, isMap := v.(tree); !isMap {
+		if _, isList := v.([]any); !isList {
+			return leakArgs{}, false
+		}
+	}
+	if len(src) < 2 && dollar != 0 {
+		return leakArgs{}, false
+	}
+	switch dollar {
+	case 1:
+		if !addDollar(d, src) {
+			return leakArgs{}, false
+		}
+	case 2:
+		sib := src[:2]
+		if len(src) == 2 {
+			sib = nil
+			if sect, ok := d[src[0]].(tree); ok {
+				for _, n := range sortedTreeKeys(sect) {
+					if _, isMap := sect[n].(tree); isMap && n != src[1] {
+						sib = []string{src[0], n}
+						break
+					}
+				}
+			}
+		}
+		if sib == nil || (sib[0] != "secrets" && sib[0] != "configs") || !addDollar(d, sib) {
+			return leakArgs{}, false
+		}
+	}
+	a := m.leakArgsTree(d, env, cores, layout)
+	a.Pre = &preSpec{}
+	res, isRes := m.resOf(src)
+	var plain, wrapped [][]string
+	for _, t := range targets {
+		if t.res != "" && !isRes {
+			continue // a labels mapping is not a resource definition
+		}
+		if _, taken := lookupPath(d, t.path...); taken {
+			continue
+		}
+		if len(t.path) >= len(src) && reflect.DeepEqual(t.path[:len(src)], src) {
+			continue // the value would contain itself
+		}
+		if len(t.path) == 3 {
+			if _, ok := lookupPath(d, t.path[:2]...); !ok {
+				continue
+			}
+		}
+		switch t.res {
+		case "secret":
+			a.Secrets = append(a.Secrets, leakRes{Name: t.path[1], Kind: res.kind, Var: res.varn})
+		case "config":
+			a.Configs = append(a.Configs, leakRes{Name: t.path[1], Kind: res.kind, Var: res.varn})
+		}
+		if t.wrap {
+			wrapped = append(wrapped, t.path)
+		} else {
+			plain = append(plain, t.path)
+		}
+	}
+	if len(plain) > 0 {
+		a.Pre.Aliases = append(a.Pre.Aliases, preAlias{From: src, To: plain})
+	}
+	if len(wrapped) > 0 {
+		a.Pre.Aliases = append(a.Pre.Aliases, preAlias{From: src, To: wrapped, Wrap: true})
+	}
+	return a, len(a.Pre.Aliases) > 0
+}
+
+func genLeakShared(ctx *core.Ctx) {
+	dollarName := []string{"no-dollar", "dollar-inside", "dollar-sibling"}
+	mk := func(extras int) (modelSpec, map[string]string, map[string]string) {
+		m := modelSpec{refs: (extras + 1) % 4, pname: "proj",
+			secrets: []resSpec{{name: "s_env", kind: "environment", varn: "SVAR", extras: extras}, {name: "s_env_2", kind: "environment", varn: "SVAR2", extras: extras},
+				{name: "s_file", kind: "file", extras: extras &^ 16}},
+			configs: []resSpec{{config: true, name: "c_env1", kind: "environment", varn: "CVAR", extras: extras}, {config: true, name: "c_inline", kind: "content"}}}
+		env, cores := map[string]string{}, map[string]string{}
+		for i, v := range []string{"SVAR", "SVAR2", "CVAR"} {
+			env[v], cores[v] = canary(61+3*extras+i, c20Deco[(extras+5*i)%len(c20Deco)])
+		}
+		return m, env, cores
+	}
+	srcs := [][]string{{"secrets", "s_env"}, {"secrets", "s_env_2"}, {"configs", "c_env1"}, {"secrets", "s_file"},
+		{"secrets", "s_env", "labels"}, {"secrets", "s_env_2", "labels"}, {"configs", "c_env1", "labels"},
+		{"secrets", "s_env", "driver_opts"}, {"secrets", "s_env", "x-nested"}, {"services", "app", "secrets"}, {"secrets"}}
+	// exhaustive: every source × every single target and all of them at once × `$` placement × resource shape × layout
+	for _, extras := range []int{0, 1 | 2 | 16, 31} {
+		for _, src := range srcs {
+			for ti := 0; ti <= len(shareTargets); ti++ {
+				targets := shareTargets
+				tl := "all"
+				if ti < len(shareTargets) {
+					targets, tl = shareTargets[ti:ti+1], shareTargets[ti].label
+				}
+				for dollar := 0; dollar < 3; dollar++ {
+					for _, layout := range []string{"single", "override"} {
+						m, env, cores := mk(extras)
+						a, ok := m.sharedArgs(env, cores, layout, src, targets, dollar)
+						if !ok {
+							continue
+						}
+						ctx.Count("leak-shared-exh")
+						ctx.Count("leak-shared-exh-target-" + tl)
+						ctx.Count("leak-shared-exh-" + dollarName[dollar])
+						ctx.Count("leak-shared-exh-src-" + strings.Join(src, "."))
+						ctx.Add("c20.leak", a)
+					}
+				}
+			}
+		}
+	}
+	// the loader options of round 6 on a shared model (interpolation stays on)
+	for _, o := range optsExhaustive() {
+		for _, src := range [][]string{{"secrets", "s_env"}, {"configs", "c_env1"}, {"secrets", "s_env", "x-nested"}} {
+			m, env, cores := mk(31)
+			a, ok := m.sharedArgs(env, cores, "single", src, shareTargets, 0)
+			if !ok {
+				continue
+			}
+			a.Opts = o
+			ctx.Count("leak-shared-exh-opts-" + o.label())
+			ctx.Add("c20.leak", a)
+		}
+	}
+	// SkipInterpolation (recorded finding `…:skip-interpolation`: the loader then works in place on the caller's value):
+	// every source × every single target, with and without a `$` left as written
+	for _, src := range srcs {
+		for ti := range shareTargets {
+			for dollar := 0; dollar < 2; dollar++ {
+				m, env, cores := mk(31)
+				a, ok := m.sharedArgs(env, cores, "single", src, shareTargets[ti:ti+1], dollar)
+				if !ok {
+					continue
+				}
+				a.Opts = &loadOpts{SkipInterpolation: true}
+				ctx.Count("leak-shared-exh-nointerp")
+				ctx.Add("c20.leak", a)
+			}
+		}
+	}
+}
+
+// randShared: a random model with one or two of its mappings / sequences shared with random other positions.
+func (m modelSpec) randShared(r *rand.Rand, env, cores map[string]string, layout string, count func(string)) leakArgs {
+	d := m.main()
+	var cands [][]string
+	for _, sect := range []string{"secrets", "configs"} {
+		t, _ := d[sect].(tree)
+		for _, n := range sortedTreeKeys(t) {
+			cands = append(cands, []string{sect, n})
+			if o, ok := t[n].(tree); ok {
+				for _, k := range sortedTreeKeys(o) {
+					switch o[k].(type) {
+					case tree, []any:
+						cands = append(cands, []string{sect, n, k})
+					}
+				}
+			}
+		}
+	}
+	src := cands[r.Intn(len(cands))]
+	var targets []shareTarget
+	for i, t := range shareTargets {
+		if r.Intn(3) == 0 {
+			t.path = append([]string(nil), t.path...)
+			if len(t.path) == 3 { // the extension goes on a resource / service of this model
+				t.path[1] = "other"
+				if t.path[0] != "services" {
+					if sect, _ := d[t.path[0]].(tree); len(sect) > 0 {
+						ks := sortedTreeKeys(sect)
+						t.path[1] = ks[r.Intn(len(ks))]
+					}
+				}
+			}
+			t.path[len(t.path)-1] += fmt.Sprintf("_%d", i)
+			targets = append(targets, t)
+		}
+	}
+	if len(targets) == 0 {
+		targets = shareTargets[:1]
+	}
+	dollar := r.Intn(3)
+	a, ok := m.sharedArgs(env, cores, layout, src, targets, dollar)
+	if !ok {
+		a, ok = m.sharedArgs(env, cores, layout, src, targets, 0)
+		dollar = 0
+	}
+	if !ok {
+		count("leak-random-shared-none")
+		return m.leakArgs(env, cores, layout)
+	}
+	count("leak-random-shared")
+	count([]string{"leak-random-shared-no-dollar", "leak-random-shared-dollar-inside", "leak-random-shared-dollar-sibling"}[dollar])
+	if len(src) == 2 {
+		count("leak-random-shared-definition")
+	} else {
+		count("leak-random-shared-sub-value")
+	}
+	return a
 }
